@@ -447,7 +447,16 @@ Inductive op :=
 | OCopyNew (i j : nat)
 | OStrTouch (i : nat) (p : path)
 | OStrAppend (i : nat) (p : path) (b : bytes)
-| OCont (i : nat) (p : path) (k : kind) (c : cop) (j : nat) (sp : path).
+| OCont (i : nat) (p : path) (k : kind) (c : cop) (j : nat) (sp : path)
+(* `d = s.toString()` with s a string Variant reached through the MUTABLE accessors of variable j (the
+   only public way to a `const String&` into a payload): operator=(const String&) with an argument that
+   may live inside the assigned Variant.  The source must already be a string (else NoSrc, nothing
+   happens); the source is navigated first, then the destination. *)
+| OAssignStrFrom (i : nat) (p : path) (j : nat) (sp : path)
+(* `d = s.toMap()` / `.toList()` / `.toArray()` with s reached through the CONST accessors of variable j:
+   operator=(const HashMap&/List&/Array&) with an argument that may live inside the assigned Variant
+   (the static empty container when s has another type).  Destination first, then the source. *)
+| OAssignNodeFrom (i : nat) (p : path) (j : nat) (sp : path) (k : kind).
 
 (* result word of an op *)
 Inductive outcome := Done | NoPath | NoSrc | BadVar.
@@ -510,6 +519,25 @@ Definition spec_step (vs : list value) (o : op) : list value * outcome :=
           end
         else (vs1, NoPath)
       else (vs, BadVar)
+  | OAssignStrFrom i p j sp =>
+      if (i <? n)%nat && (j <? n)%nat then
+        match vread sp (getv vs j) with
+        | Some (VStr b) =>
+            let '(vs1, ok) := vupd_var vs i p (fun v => v) in
+            if ok then (fst (vupd_var vs1 i p (fun _ => VStr b)), Done) else (vs1, NoPath)
+        | _ => (vs, NoSrc)
+        end
+      else (vs, BadVar)
+  | OAssignNodeFrom i p j sp k =>
+      if (i <? n)%nat && (j <? n)%nat then
+        let '(vs1, ok) := vupd_var vs i p (fun v => v) in
+        if ok then
+          match vread sp (getv vs1 j) with
+          | Some x => let '(ks, xs) := vopen k x in (fst (vupd_var vs1 i p (fun _ => VNode k ks xs)), Done)
+          | None => (vs1, NoSrc)
+          end
+        else (vs1, NoPath)
+      else (vs, BadVar)
   end.
 
 (* Self-containment: the source node of an assignment / insertion is one of the nodes whose
@@ -538,7 +566,29 @@ Definition self_containing (vs : list value) (o : op) : bool :=
       | Some d, Some s => is_prefix s d
       | _, _ => false
       end
+  | OAssignNodeFrom i p j sp k =>
+      (* `f = v.toList()` with f inside v.  The copy of v's items is built first; it shares the blocks of v's
+         children.  When f lies two or more levels below v, one of these blocks contains f: writing f then
+         stores into that block a handle to a payload holding the block - a cycle.  When f is an item of v
+         itself, its copy is f's old value, and a cycle arises only if f's payload is written in place
+         (copy + swap into the payload f's copy shares), which needs f to have kind k already. *)
+      (i =? j)%nat &&
+      match vresolve p (getv vs i), vresolve sp (getv vs j) with
+      | Some d, Some s => is_prefix s d &&
+                          ((S (length s) <? length d)%nat ||
+                           ((S (length s) =? length d)%nat &&
+                            match vread p (getv vs i) with Some (VNode k' _ _) => kind_eqb k k' | _ => false end))
+      | _, _ => false
+      end
   | _ => false
+  end.
+
+(* histories none of whose operations is self-containing at the point where it is executed: the scope in
+   which the model is tied to the code (see the open finding) *)
+Fixpoint admissible (vs : list value) (l : list op) : bool :=
+  match l with
+  | [] => true
+  | o :: t => negb (self_containing vs o) && admissible (fst (spec_step vs o)) t
   end.
 
 Fixpoint spec_run (vs : list value) (l : list op) : list value :=
